@@ -337,6 +337,13 @@ fn type_layout_for_print(ty: &AirType, program: &AirProgram) -> (u32, u32) {
     }
 }
 
+/// Least multiple of `align` (a power of two) that is `>= x`, computed in u64 and saturating at
+/// u32::MAX: the printer must not panic or wrap on a struct that ends just below 4 GiB.
+fn round_up_for_print(x: u32, align: u32) -> u32 {
+    let r = (x as u64 + align as u64 - 1) & !(align as u64 - 1);
+    u32::try_from(r).unwrap_or(u32::MAX)
+}
+
 fn struct_size_align(def: &AirStructDef, program: &AirProgram) -> (u32, u32) {
     if def.fields.is_empty() {
         return (0, 1);
@@ -347,19 +354,18 @@ fn struct_size_align(def: &AirStructDef, program: &AirProgram) -> (u32, u32) {
         for f in &def.fields {
             let (fs, fa) = type_layout_for_print(&f.ty, program);
             max_align = max_align.max(fa);
-            end = end.max(f.offset.unwrap() + fs);
+            end = end.max(f.offset.unwrap().saturating_add(fs));
         }
-        ((end + max_align - 1) & !(max_align - 1), max_align)
+        (round_up_for_print(end, max_align), max_align)
     } else {
         let mut offset: u32 = 0;
         let mut max_align: u32 = 1;
         for f in &def.fields {
             let (fs, fa) = type_layout_for_print(&f.ty, program);
-            offset = (offset + fa - 1) & !(fa - 1);
-            offset += fs;
+            offset = round_up_for_print(offset, fa).saturating_add(fs);
             max_align = max_align.max(fa);
         }
-        ((offset + max_align - 1) & !(max_align - 1), max_align)
+        (round_up_for_print(offset, max_align), max_align)
     }
 }
 
